@@ -33,29 +33,264 @@ NAMES = ["cache_checked_for_lock", "lock_purges_key_cache", "lock_wipes_witness_
          "change_rejects_empty_private", "privkey_checks_lock_first", "unlock_loads_queued_accounts"]
 
 
+class ExtractError(RuntimeError):
+    pass
+
+
 def extract(repo):
+    """primary path: the source-shape reader (harness/cmd/extract-c05, go/ast)"""
     with vlib.Lock("go"):
         p = subprocess.run(["go", "run", "./cmd/extract-c05", repo], cwd=vlib.HARNESS, env=vlib.GOENV,
                            stdout=subprocess.PIPE, stderr=subprocess.PIPE, text=True, timeout=280)
     if p.returncode != 0:
-        raise RuntimeError("extract-c05 failed on %s (rc=%d): %s" % (repo, p.returncode, p.stderr.strip()[-2000:]))
+        raise ExtractError("extract-c05 failed on %s (rc=%d): %s" % (repo, p.returncode, p.stderr.strip()[-2000:]))
     return json.loads(p.stdout)
 
 
-def render(res):
+# ------------------------------------------------------------------ fallback path: probing the built code
+
+def _run_scenarios(repo, scenarios):
+    """build harness/cmd/c05 (the correspondence harness: the REAL waddrmgr on a bbolt file) against `repo`
+    and replay the given operation lists; returns one observed case per scenario"""
+    import hashlib, shutil
+    with vlib.Lock("go"):
+        os.makedirs(os.path.join(vlib.WORK, "bin"), exist_ok=True)
+        modflag = []
+        if repo == "/repo":
+            shutil.copyfile(os.path.join(repo, "go.sum"), os.path.join(vlib.HARNESS, "go.sum"))
+        else:
+            alt = os.path.join(vlib.WORK, "extract_c05_%s.mod" % hashlib.sha1(repo.encode()).hexdigest()[:8])
+            txt = open(os.path.join(vlib.HARNESS, "go.mod")).read().replace("=> /repo", "=> " + repo)
+            open(alt, "w").write(txt)
+            shutil.copyfile(os.path.join(repo, "go.sum"), alt[:-4] + ".sum")
+            modflag = ["-modfile=" + alt]
+        exe = os.path.join(vlib.WORK, "bin", "extract-c05-probe")
+        p = subprocess.run(["go", "build"] + modflag + ["-tags", "verif", "-o", exe, "./cmd/c05"], cwd=vlib.HARNESS,
+                           env=vlib.GOENV, stdout=subprocess.PIPE, stderr=subprocess.PIPE, text=True, timeout=900)
+        if p.returncode != 0:
+            raise ExtractError("probe: harness/cmd/c05 does not build against %s: %s" % (repo, (p.stdout + p.stderr)[-1500:]))
+    path = os.path.join(vlib.WORK, "extract_c05_probe.jsonl")
+    with open(path, "w") as f:
+        for ops in scenarios:
+            f.write(json.dumps({"in": {"pub": 9, "priv": 1, "probe": "none", "probe_seed": 0, "ops": ops}}) + "\n")
+    p = subprocess.run([exe, "-replay", path], cwd=vlib.WORK, env=vlib.GOENV, stdout=subprocess.PIPE,
+                       stderr=subprocess.PIPE, text=True, timeout=300)
+    if p.returncode != 0:
+        raise ExtractError("probe: c05 -replay failed: %s" % p.stderr[-1500:])
+    cases = [json.loads(l) for l in p.stdout.splitlines() if l.strip()]
+    if len(cases) != len(scenarios):
+        raise ExtractError("probe: %d scenarios, %d results" % (len(scenarios), len(cases)))
+    return cases
+
+
+def probe_facts(repo):
+    """Facts determined by RUNNING the code built from `repo` (fallback when the source shape is not recognised).
+
+    Every fact is the absence of one defect behaviour, and each has a minimal scenario that shows the defect whenever
+    the code has it - the scenarios of the C05_refuted_* theorems (Properties/C05.v) and of the corpus replays
+    (corpus/C05).  The scenarios run through the correspondence harness (real waddrmgr, bbolt file, hook
+    VerifSecretBuffers + reflection); each is run in two instances (different scope / path / script kind).
+    P = 1 is the private passphrase, scopes 0 and 2 are m/84'/0' and m/44'/0'.
+
+      cache_checked_for_lock   [unlock P; props; dcache i; lock; dcache j]  (j never derived, account cached).  With the
+          lock test in front of the cache lookup the last call returns ErrLocked whatever the cache holds; without
+          it the call goes on to derive from the PUBLIC account key and fails with ErrNotPrivExtKey (class other) -
+          or returns the key if j is cached.  true iff class locked.  Further instances: the cached path i itself
+          after [invalidate; lock] (a key that survived in the cache must not come back), and [.. convert; dcache j],
+          which must give watchonly.
+      lock_purges_key_cache    [unlock P; props; dcache i; lock]: the hook reports privKeyCache:<scope> live iff the
+          cache still has entries; dcache i succeeded, so the cache had one.  true iff not live after Lock.
+      lock_wipes_witness_scripts  [unlock P; import a secret witness script; import a secret taproot script; lock]:
+          the import leaves the clear text in the object; true iff both buffers are dead after Lock, false iff both
+          are live, anything else is refused (the model has one fact for both kinds).
+      lock_wipes_last_addrs    [unlock P; props; lock]: loadAccountInfo while unlocked builds the last external /
+          internal address objects from PRIVATE keys (clear text live, objects not in the addrs map); true iff
+          their clear text is dead after Lock.
+      unlock_skips_keyless_accounts / keyless_addresses_not_queued  [newwatch; next (loads the keyless account, and
+          queues its addresses unless keyToManaged refuses); unlock P]: crypto ("failed to decrypt account") = Unlock
+          does not skip; panic = it skips but the queued address is dereferenced; ok = both facts hold.  When Unlock
+          does not skip, the queue is never reached and the second fact is not observable: it is reported false
+          (the proof obligation fails on the first fact anyway).
+      change_rejects_empty_private  [unlock P; chpriv P -> ""]: true iff the change is refused (class other).
+      privkey_checks_lock_first  [unlock P; derive path; lock]: DeriveFromKeyPath while unlocked returns an object with
+          live clear text that the manager does not track, so Lock cannot wipe it; the harness keeps it and calls
+          PrivKey()/ExportPrivKey() after Lock.  true iff class locked; false iff the key comes back.
+      unlock_loads_queued_accounts  [next (while locked: queued); invalidate; unlock P]: true iff Unlock succeeds,
+          false iff it panics (the account reloaded while still locked has no private key).
+    Any other outcome makes the probe path fail (no guess)."""
+    k = lambda a, b, i: {"t": "c", "acct": a, "br": b, "idx": i}          # noqa: E731
+    U = {"k": "unlock", "p": 1}
+    sc = []
+
+    def add(ops):
+        sc.append(ops)
+        return len(sc) - 1
+    idx = {}
+    idx["cache"] = [add([U, {"k": "props", "sc": s}, {"k": "dcache", "sc": s, "idx": 7}, {"k": "lock"},
+                         {"k": "dcache", "sc": s, "idx": 8}]) for s in (0, 2)]
+    # the cached key itself, with the account dropped from the account cache before Lock (a Lock that skips
+    # scopes without cached accounts leaves the key in the cache)
+    idx["cache_hit"] = [add([U, {"k": "props", "sc": s}, {"k": "dcache", "sc": s, "idx": 7}, {"k": "invalidate", "sc": s},
+                             {"k": "lock"}, {"k": "dcache", "sc": s, "idx": 7}]) for s in (0, 2)]
+    idx["cache_wo"] = [add([U, {"k": "props"}, {"k": "dcache", "idx": 7}, {"k": "convert"}, {"k": "dcache", "idx": 8}])]
+    idx["wscripts"] = [add([U, {"k": "impscript", "sc": s, "n": 2, "kind": "witness", "sec": True},
+                            {"k": "impscript", "sc": s, "n": 3, "kind": "taproot", "sec": True}, {"k": "lock"}]) for s in (0, 2)]
+    idx["last"] = [add([U, {"k": "props", "sc": s}, {"k": "lock"}]) for s in (0, 2)]
+    idx["keyless"] = [add([{"k": "newwatch", "sc": s}, {"k": "next", "sc": s, "acct": 1}, U]) for s in (2, 0)]
+    idx["empty"] = [add([U, {"k": "chpriv", "p": 1, "q": 0}]), add([{"k": "chpriv", "p": 1, "q": 0}])]
+    idx["privkey"] = [add([U, {"k": "derive", "sc": s, "idx": 11}, {"k": "lock"}]) for s in (0, 2)]
+    idx["preload"] = [add([{"k": "next", "sc": s}, {"k": "invalidate", "sc": s}, U]) for s in (0, 2)]
+    cases = _run_scenarios(repo, sc)
+
+    def calls(i, kind):
+        return [e for e in cases[i]["obs"]["trace"] if "o" in e and e["o"]["k"] == kind]
+
+    def last_snap(i):
+        return [e["s"] for e in cases[i]["obs"]["trace"] if e.get("s")][-1]
+
+    def agree(name, vals):
+        if len(set(vals)) != 1:
+            raise ExtractError("probe: the instances of the scenario for %s disagree: %s" % (name, vals))
+        return vals[0]
+
+    def need(cond, msg):
+        if not cond:
+            raise ExtractError("probe: " + msg)
+    f, why = {}, {}
+    # -- cache_checked_for_lock
+    vals = []
+    for i in idx["cache"]:
+        d = calls(i, "dcache")
+        need(len(d) == 2 and d[0]["r"] == "ok" and last_snap(i)["l"], "cache scenario did not run as intended: %s" % [x["r"] for x in d])
+        need(d[1]["r"] in ("locked", "other", "ok"), "DeriveFromKeyPathCache while locked gave class %s" % d[1]["r"])
+        vals.append(d[1]["r"] == "locked")
+    for i in idx["cache_hit"]:
+        d = calls(i, "dcache")
+        need(len(d) == 2 and d[0]["r"] == "ok" and last_snap(i)["l"], "cache-hit scenario did not run as intended")
+        need(d[1]["r"] in ("locked", "other", "ok", "notcached"), "DeriveFromKeyPathCache while locked gave class %s" % d[1]["r"])
+        vals.append(d[1]["r"] == "locked")
+    for i in idx["cache_wo"]:
+        d = calls(i, "dcache")
+        need(len(d) == 2 and d[0]["r"] == "ok" and last_snap(i)["w"], "watching-only cache scenario did not run as intended")
+        need(d[1]["r"] in ("watchonly", "other", "ok", "locked"), "DeriveFromKeyPathCache while watching-only gave class %s" % d[1]["r"])
+        vals.append(d[1]["r"] == "watchonly")
+    # the defect shows if it shows in ANY instance
+    f["cache_checked_for_lock"] = all(vals)
+    why["cache_checked_for_lock"] = "DeriveFromKeyPathCache while locked / watching-only (uncached path, cached path, after conversion): %s" % (
+        "locked / watching-only error in every instance" if all(vals) else "no locked error in instances %s" % [j for j, v in enumerate(vals) if not v])
+    # -- lock_purges_key_cache
+    vals = []
+    for i in idx["cache"] + idx["cache_hit"]:
+        snaps = [e["s"] for e in cases[i]["obs"]["trace"] if e.get("s")]
+        after_lock = [sn for sn, prev in zip(snaps[1:], snaps) if sn["l"] and not prev["l"]]
+        need(len(after_lock) == 1, "no snapshot right after Lock")
+        b = [x for x in after_lock[0]["b"] if x["t"] == "cache" and x.get("sc", 0) == sc[i][1].get("sc", 0)]
+        need(len(b) == 1, "no privKeyCache buffer reported")
+        vals.append(not b[0]["live"])
+    f["lock_purges_key_cache"] = all(vals)
+    why["lock_purges_key_cache"] = "privKeyCache after Lock (account cached / dropped from the account cache): %s" % (
+        "empty" if all(vals) else "still holds the derived key in instances %s" % [j for j, v in enumerate(vals) if not v])
+    # -- lock_wipes_witness_scripts
+    vals = []
+    for i in idx["wscripts"]:
+        need(all(c["r"] == "ok" for c in calls(i, "impscript")) and last_snap(i)["l"], "script scenario did not run as intended")
+        b = [x["live"] for x in last_snap(i)["b"] if x["t"] == "script"]
+        need(len(b) == 2, "expected two script buffers, found %d" % len(b))
+        need(b[0] == b[1], "exactly one of the witness / taproot clear texts survives Lock: the model has no such case")
+        vals.append(not b[0])
+    f["lock_wipes_witness_scripts"] = agree("lock_wipes_witness_scripts", vals)
+    why["lock_wipes_witness_scripts"] = "secret witness and taproot script clear text after Lock: %s" % ("wiped" if vals[0] else "live")
+    # -- lock_wipes_last_addrs
+    vals = []
+    for i in idx["last"]:
+        b = [x["live"] for x in last_snap(i)["b"] if x["t"] == "last"]
+        need(len(b) == 2 and last_snap(i)["l"], "last-address scenario did not run as intended")
+        need(b[0] == b[1], "exactly one of lastExternalAddr / lastInternalAddr survives Lock: the model has no such case")
+        vals.append(not b[0])
+    f["lock_wipes_last_addrs"] = agree("lock_wipes_last_addrs", vals)
+    why["lock_wipes_last_addrs"] = "accountInfo.last{External,Internal}Addr clear text after Lock: %s" % ("wiped" if vals[0] else "live")
+    # -- keyless accounts
+    vals = []
+    for i in idx["keyless"]:
+        need(all(c["r"] == "ok" for c in calls(i, "newwatch") + calls(i, "next")), "keyless-account scenario did not run as intended")
+        r = calls(i, "unlock")[-1]["r"]
+        need(r in ("ok", "crypto", "panic"), "Unlock with a cached keyless account gave class %s" % r)
+        vals.append(r)
+    r = agree("unlock_skips_keyless_accounts", vals)
+    f["unlock_skips_keyless_accounts"] = r != "crypto"
+    f["keyless_addresses_not_queued"] = r == "ok"
+    why["unlock_skips_keyless_accounts"] = "Unlock(right passphrase) with a cached watch-only account: class %s" % r
+    why["keyless_addresses_not_queued"] = ("same scenario: class %s%s" % (
+        r, " (not observable while Unlock rejects keyless accounts; reported false)" if r == "crypto" else ""))
+    # -- change_rejects_empty_private
+    vals = []
+    for i in idx["empty"]:
+        r = calls(i, "chpriv")[-1]["r"]
+        need(r in ("ok", "other"), "ChangePassphrase to an empty private passphrase gave class %s" % r)
+        vals.append(r == "other")
+    f["change_rejects_empty_private"] = agree("change_rejects_empty_private", vals)
+    why["change_rejects_empty_private"] = "ChangePassphrase(private, new = empty): %s" % ("refused" if vals[0] else "accepted")
+    # -- privkey_checks_lock_first
+    vals = []
+    for i in idx["privkey"]:
+        h = [e for e in calls(i, "hprivkey") if e["o"].get("org") == "derive" and e["o"].get("ct")]
+        need(calls(i, "derive")[0]["r"] == "ok" and h and last_snap(i)["l"],
+             "no kept DeriveFromKeyPath object with live clear text was probed after Lock")
+        rs = {e["r"] for e in h}
+        need(rs <= {"locked", "ok"} and len(rs) == 1, "PrivKey on a kept object while locked gave classes %s" % sorted(rs))
+        vals.append(rs == {"locked"})
+    f["privkey_checks_lock_first"] = agree("privkey_checks_lock_first", vals)
+    why["privkey_checks_lock_first"] = "PrivKey() after Lock on a kept, untracked address object with live clear text: %s" % (
+        "ErrLocked" if vals[0] else "returns the key")
+    # -- unlock_loads_queued_accounts
+    vals = []
+    for i in idx["preload"]:
+        need(calls(i, "next")[0]["r"] == "ok", "preload scenario did not run as intended")
+        r = calls(i, "unlock")[-1]["r"]
+        need(r in ("ok", "panic"), "Unlock after InvalidateAccountCache gave class %s" % r)
+        vals.append(r == "ok")
+    f["unlock_loads_queued_accounts"] = agree("unlock_loads_queued_accounts", vals)
+    why["unlock_loads_queued_accounts"] = "Unlock after InvalidateAccountCache with a queued address: %s" % ("succeeds" if vals[0] else "nil dereference")
+    f["why"] = why
+    f["nprobes"] = len(sc)
+    return f
+
+
+def facts(repo):
+    """(facts, facts_source): the source-shape reader first; the behavioural probe only if it refuses the shape.
+    Raises ExtractError only when BOTH paths fail."""
+    try:
+        if os.environ.get("VERIF_C05_FORCE_PROBE"):         # development aid: exercise the fallback
+            raise ExtractError("VERIF_C05_FORCE_PROBE is set")
+        return extract(repo), "source"
+    except (ExtractError, OSError, ValueError, subprocess.SubprocessError) as e1:
+        why = str(e1).replace(repo.rstrip("/") + "/", "").replace(repo, "<repo>")
+        try:
+            res = probe_facts(repo)
+        except (ExtractError, OSError, ValueError, KeyError, IndexError, subprocess.SubprocessError) as e2:
+            raise ExtractError("source shape not recognised (%s) AND probing the built code failed (%s)" % (e1, e2))
+        return res, ("probe (source shape not recognised: %s; facts determined by running %d witness scenarios on the "
+                     "code built from the repository, harness/cmd/c05 -replay)" % (why[-400:], res["nprobes"]))
+
+
+def _clean(t):
+    return t.replace("(*", "( *").replace("*)", "* )").replace('"', "'")
+
+
+def render(res, source="source"):
     defs = []
     for n in NAMES:
-        why = res["why"][n].replace("(*", "( *").replace("*)", "* )").replace('"', "'")
-        defs.append("(* %s *)\nDefinition %s : bool := %s.\n" % (why, n, "true" if res[n] else "false"))
+        defs.append("(* %s *)\nDefinition %s : bool := %s.\n" % (_clean(res["why"][n]), n, "true" if res[n] else "false"))
     return """(* GENERATED by lib/extract_c05.py (harness/cmd/extract-c05, go/ast) from the
    repository's waddrmgr/*.go.  Do not edit; bin/extract rewrites it.
 
    Facts about the lock discipline of waddrmgr that the model Addr/Lock.v is
    parameterised by (see the record [facts] there). *)
+(* facts source: %s *)
 
-%s""" % "\n".join(defs)
+%s""" % (_clean(source), "\n".join(defs))
 
 
 def main(repo, outdir, write_if_changed):
-    res = extract(repo)
-    write_if_changed(os.path.join(outdir, "LockFacts.v"), render(res))
+    res, source = facts(repo)
+    write_if_changed(os.path.join(outdir, "LockFacts.v"), render(res, source))
